@@ -166,3 +166,28 @@ example (P : Prims) (O : OutPrims) :
     [10, 10, 123, 123, 32, 121, 32, 125, 125] [.text 4 [10, 10], .obj 6 (.var [121])] [] _ rfl rfl rfl rfl (c14Err_inner P O)
   cases hse
   exact h (Or.inl (by decide))
+
+/-- `include_render_err_at_file_token` on this instance: the object token `{{ y }}` of the file, two newlines
+    after the start of the file -/
+example (P : Prims) (O : OutPrims) :
+    ∃ pre t rest, scan c14ErrCfg.delims [10, 10, 123, 123, 32, 121, 32, 125, 125] 4 = pre ++ t :: rest ∧ (t.ty = .tag ∨ t.ty = .obj) ∧
+      (6 : Nat) = 4 + countNL (srcs pre) ∧ [10, 10, 123, 123, 32, 121, 32, 125, 125] = srcs pre ++ (t.source ++ srcs rest) ∧ true = true :=
+  include_render_err_at_file_token P O c14ErrCfg c14ErrFs 0 4 [] [10, 10, 123, 123, 32, 121, 32, 125, 125]
+    [.text 4 [10, 10], .obj 6 (.var [121])] [] ⟨6, true, .other "undefinedVariable", .byCause⟩ rfl (by decide) (c14Err_inner P O)
+
+/-- `include_sentinel_passes`: the file is `{% break %}`; included at line 4 of `d/t` it hands a `break` located
+    at line 4 to the including template and inserts nothing -/
+def c14BrkFs : FS := ⟨fun _ => .content [123, 37, 32, 98, 114, 101, 97, 107, 32, 37, 125], fun _ => none⟩
+
+theorem c14Brk_inner (P : Prims) (O : OutPrims) :
+    (renderRoot (mkCtx P O { path := [100, 47, 116] } c14BrkFs 0) [.brk 4] []).runPure =
+      ([], .ok (.brk ⟨4, true, .brk, .byCause⟩)) := by
+  simp [renderRoot, renderList, renderNode, M.bind, M.pure, Prog.bind, Prog.runPure, bind, pure, mkCtx, wrapError]
+
+example (P : Prims) (O : OutPrims) :
+    renderNode (mkCtx P O { path := [100, 47, 116] } c14BrkFs 1) (.incl 4 [34, 102, 34]) ⟨[], {}⟩ =
+      .ret (.brk ⟨4, true, .brk, .byCause⟩, ⟨[], {}⟩) := by
+  have h := (include_sentinel_passes P O { path := [100, 47, 116] } c14BrkFs 0 4 [34, 102, 34] ⟨[], {}⟩ (.lit (.str [102])) [102]
+    [123, 37, 32, 98, 114, 101, 97, 107, 32, 37, 125] [.brk 4] [] _ rfl rfl rfl rfl (c14Brk_inner P O) (by simp)).1
+  rw [h]
+  simp [Status.wrap, wrapError]
